@@ -225,15 +225,15 @@ func runC17(l *evlog.Log, c *evlog.Case, cs *c17Case) {
 	if victimIsClient {
 		toVictim = wiretap.S2C
 	}
-	w.Router.OnDeliver = func(d *wiretap.DatagramInfo, mod wiretap.Mod) {
+	w.Router.SetOnDeliver(func(d *wiretap.DatagramInfo, mod wiretap.Mod) {
 		if d.Dir == toVictim {
 			rmu.Lock()
 			lastRecv = w.Router.Now()
 			firstAESendAfterRecv = -1
 			rmu.Unlock()
 		}
-	}
-	w.Router.OnEmit = func(d *wiretap.DatagramInfo) *simworld.Action {
+	})
+	w.Router.SetOnEmit(func(d *wiretap.DatagramInfo) *simworld.Action {
 		if d.Dir != toVictim {
 			ae := false
 			for _, p := range d.Packets {
@@ -260,7 +260,7 @@ func runC17(l *evlog.Log, c *evlog.Case, cs *c17Case) {
 			}
 		}
 		return nil
-	}
+	})
 	defer func() {
 		w.Close()
 		time.Sleep(5 * time.Minute)
@@ -720,4 +720,42 @@ func runC17(l *evlog.Log, c *evlog.Case, cs *c17Case) {
 	c.Eval(fmt.Sprintf("%s/%s/%v/%s/t%v", cs.Cause, cs.Victim, cs.Blocked, cs.Client, cs.Transfer))
 	l.Count("cases_with_blocked_calls", int64(min(nb, 1)))
 	c.Sample(cs.Cause, map[string]any{"case": cs.Name, "blocked": cs.Blocked, "cause": got, "ctx_done_after_trigger": (doneAt - trigger).String()})
+}
+
+// The close paths under the race detector (job built with -race): every cause x victim with all
+// calls blocked, one call blocked, and a transfer in progress.
+func TestVerifC17CloseRace(t *testing.T) {
+	if !verifhook.Enabled {
+		t.Fatal("built without -tags verif")
+	}
+	l := evlog.Open("C17")
+	defer l.Close()
+	var cases []c17Case
+	idx := 0
+	for rep := 0; rep < l.Pick(1, 12); rep++ {
+		for _, cause := range []string{"local-close", "remote-close", "remote-close-lost", "idle-timeout", "stateless-reset", "transport-error", "transport-close"} {
+			for _, victim := range []string{"client", "server"} {
+				for si, s := range [][]string{c17Calls, {c17Calls[idx%len(c17Calls)]}, {"read", "write"}} {
+					client := "plain"
+					if victim == "client" && si == 0 {
+						client = "Chrome_115_IPv4"
+					}
+					cases = append(cases, c17Case{Name: fmt.Sprintf("race/%s/%s/%d-%d", cause, victim, rep, si), Cause: cause, Victim: victim, Blocked: s,
+						IdleMs: 1000, Client: client, Transfer: si == 2, HookSeed: uint64(idx)*31 + uint64(l.Seed())})
+					idx++
+				}
+			}
+		}
+	}
+	for i, cs := range cases {
+		if !l.Mine(i) {
+			continue
+		}
+		c := l.Begin("C17/"+cs.Name, cs)
+		if c == nil {
+			continue
+		}
+		synctest.Test(t, func(t *testing.T) { runC17(l, c, &cs) })
+		c.End()
+	}
 }
